@@ -371,6 +371,10 @@ func rC05NonInterference(w *World, r *Report) {
 					n--
 					continue
 				}
+				if mi, ok := use.(*ssa.MakeInterface); ok && onlyLogged(mi) {
+					n--
+					continue // handed to the debug Logger only
+				}
 				ru.Bad("typed-text/use", w.IPos(use), "the typed option text is used outside the matcher / unknown record: "+describeInstr(use))
 			}
 		}
@@ -1458,4 +1462,36 @@ func rC07SingleDash(w *World, r *Report) {
 	})
 	ru.Check(okOpt, "single-dash/option", w.Pos(fn.Pos()), "Option = string([]rune(match[2])[0])", "the single-dash option is not the first character of the token")
 	ru.Check(okArgs, "single-dash/value", w.Pos(fn.Pos()), "Args = string([]rune(match[2])[1:]) + match[3]", "the single-dash value is not exactly the rest of the token")
+}
+
+// onlyLogged: the interface value is only stored into the variadic argument list of debug Logger calls.
+func onlyLogged(mi *ssa.MakeInterface) bool {
+	refs := mi.Referrers()
+	if refs == nil || len(*refs) == 0 {
+		return false
+	}
+	for _, r := range *refs {
+		st, ok := r.(*ssa.Store)
+		if !ok {
+			return false
+		}
+		a, ok := rootOfAddr(st.Addr).(*ssa.Alloc)
+		if !ok {
+			return false
+		}
+		sl := sliceOfAlloc(a)
+		if sl == nil || sl.Referrers() == nil {
+			return false
+		}
+		for _, r2 := range *sl.Referrers() {
+			c, ok := r2.(ssa.CallInstruction)
+			if !ok {
+				return false
+			}
+			if _, isLog := loggerCall(c); !isLog {
+				return false
+			}
+		}
+	}
+	return true
 }
